@@ -21,7 +21,7 @@ T={
 "C09":("E1 enumeration of hostile count families under a counting global allocator, worker processes",
  "Every container position of the measured types x claimed counts 2^16+1..2^32-1 x payload lengths around the 16 KiB chunk x 4 input kinds: peak live heap within a linear allowance and independent of the claimed count; >1 GiB requests refused and recorded. Two call sites with zero-width elements are open known findings."),
 "C10":("E6 fault enumeration with a construction/drop ledger",
- "59 holders of instrumented elements (droppable, zero-sized droppable, skipped default-constructed payloads; arrays, Vec-backed, lists, maps, Box/Rc/Arc nests, derived and transparent types) x sizes 0..40 x every failing position x {exhausted, malformed, depth-limit, mem-limit, panic} x limits hit at the holder's own levels: live instances == those handed over, nothing leaked or dropped twice, no heap byte allocated during the call left live (counting allocator; thorough: same enumeration under ASan+LSan)."),
+ "60 holders of instrumented elements (droppable, zero-sized droppable, skipped default-constructed payloads; arrays, Vec-backed, lists, maps, Box/Rc/Arc nests, derived and transparent types) x sizes 0..40 (vectors also 683 / 1400 elements and 18 / 35 items of 960 bytes: failures in the second and third preallocation chunk) x every failing position x {exhausted, malformed, depth-limit, mem-limit, panic} x limits hit at the holder's own levels: live instances == those handed over, nothing leaked or dropped twice, no heap byte allocated during the call left live (counting allocator; thorough: same enumeration under ASan+LSan)."),
 "C11":("E1 every limit on valid encodings; E2 on byte strings; explicit-state depth machine; deep-input workers",
  "Every limit 0..=depth+2 on boundary values of every registry type (sandwich oracle; consume-all variant with and without trailing bytes), limits on explored byte strings, all programs of <=7 (9) calls through 44 stacks with binding depth limits, and 10^6-level inputs of 7 recursive shapes x 67 limits on a 2 MiB stack."),
 "C12":("E6 every limit 0..=U+1; E2 on byte strings; explicit-state memory machine",
@@ -33,7 +33,7 @@ T={
 "C15":("E4 explicit-state BFS (stateright) over append histories, real append_or_new per transition",
  "All append histories up to depth 4 (5) with batches of 0..3 items over a 2-item alphabet, 5 item types, 4 alias forms, Vec and VecDeque targets, from empty and from seeds across 63/64 and 2^14; unit items around 2^30/2^32 incl. batches of 2^32+-1; every 1-2 byte start."),
 "C16":("E1 enumeration over a compiler-checked EncodeLike pair table",
- "215 EncodeLike families instantiated with concrete types (the compiler rejects any pair the crate does not declare) x the target's boundary domain: alias bytes == reference encoding of the target value and decode as the target; derive-emitted aliases of every generated definition."),
+ "215 EncodeLike families instantiated with concrete types (the compiler rejects any pair the crate does not declare) x the target's boundary domain (sequence aliases over compound elements also at 16383..16385 elements): alias bytes == reference encoding of the target value and decode as the target; derive-emitted aliases of every generated definition."),
 "C17":("E5 generated programs, each compiled on its own with rustc against the freshly built rlibs",
  "All valid-Rust enum definitions with <=2 (3) variants over a 16-symbol index-source alphabet, index+discriminant combinations, 256..400-variant enums, every struct shape of <=3 fields deriving CompactAs (170), every ordered pair of field attributes at every position of 1-3-field structs and variants (216), unions, each invalid case next to valid twins: accept/reject equals the reference predicate, rejections carry a diagnostic."),
 "C18":("E1 DecodeLength on boundary values; E2 skip vs decode on byte strings",
